@@ -5,6 +5,7 @@ mod exec;
 mod model;
 mod ops;
 mod report;
+mod scenario;
 
 use serde_json::Value as J;
 use std::io::{BufRead, BufReader};
@@ -58,6 +59,7 @@ fn run(args: &[String]) -> Result<i32, String> {
             let mut rep = report::Report::default();
             let n = for_each_case(input, |case| match engine.as_str() {
                 "ops" => ops::replay_case(case, &mut rep),
+                "prog" => scenario::replay_prog(case, &mut rep),
                 _ => rep.tool_error(format!("unknown engine {engine}")),
             })?;
             if n == 0 {
